@@ -39,6 +39,7 @@ CTX = {
     "nanmask": lambda: [S.observation_nan_policy("mask")],
     "nanfill": lambda: [S.observation_nan_policy("fill")],
     "nochol_root": lambda: [S.fast_computations(covar_root_decomposition=False)],
+    "vjit": lambda: [S.variational_cholesky_jitter(double_value=1e-3)],
 }
 LOOSE = {"cg", "fpv", "fps"}
 
@@ -52,7 +53,7 @@ def alphabet(fam, tier):
     if fam in ("exact", "multitask"):
         ctxs += ["nanmask", "nanfill"]
     if models.is_var(fam):
-        ctxs = ["default", "nolazy", "attach", "skip", "cg", "nochol_root"]
+        ctxs = ["default", "nolazy", "attach", "skip", "cg", "nochol_root", "vjit"]
     ops = [["predict", c, "m3"] for c in ctxs]
     ops += [["predict", "default", "m1"], ["predict", "default", "b2"], ["predict", "fpv", "m1"]]
     ops += [["train"], ["eval"], ["step"], ["load", 1], ["load", 0]]
@@ -267,6 +268,16 @@ def run_history(cell, seed):
     fails = Fails()
     feats = {"fam": fam, "len": len(hist), "last": hist[-1][0], "last_ctx": hist[-1][1] if hist[-1][0] == "predict" else None,
              "ops": [o[0] + (":" + o[1] if o[0] == "predict" else "") for o in hist]}
+    # does one cache epoch (a maximal run of operations without train / eval / load, which drop the memoised factors) contain evaluations
+    # under two different variational_cholesky_jitter values?  (feature used by a known finding; a probe after a failed op is a default one)
+    epoch, mixed = set(), False
+    for o in hist + [["predict", "default"]]:
+        if o[0] in ("train", "eval", "load"):
+            epoch = set()
+        elif o[0] in ("predict", "backward", "fantasy", "kl"):
+            epoch.add("vjit" if (o[0] == "predict" and o[1] == "vjit") else "std")
+            mixed = mixed or len(epoch) == 2
+    feats["vjit_mixed_epoch"] = mixed
     notes = {}
     sig = "ok"
     for i, op in enumerate(hist):
